@@ -97,6 +97,8 @@ theorem normalOf_inj {t : Table} {b1 b2 : ResolvedBinding} (h1 : GoodBinding t b
   rw [h, resolutionOf_normalOf h2] at this
   cases this; rfl
 
+theorem resolutionOf_noLoc (t : Table) (r : MResult) : resolutionOf t (noLoc r) = resolutionOf t r := rfl
+
 theorem normalOf_kind (t : Table) (b : ResolvedBinding) : (normalOf t b).kind = .normal := by
   unfold normalOf; split <;> rfl
 
@@ -105,7 +107,7 @@ theorem matchImport_spec {t : Table} {rs : List Resolved} (H : Hyps t rs) (k : B
     {ni : NamedImport} {r : Nat} (hf : t[s]? = some f) (hi : findImport f r = some ni) :
     ∃ R, matchImport ⟨t, rs, k⟩ s r = some R ∧
       ((∀ b, ¬ Pointed t ni b) → R = {}) ∧
-      (∀ b, Pointed t ni b → (∀ b', Pointed t ni b' → b' = b) → R = normalOf t b) ∧
+      (∀ b, Pointed t ni b → (∀ b', Pointed t ni b' → b' = b) → noLoc R = normalOf t b) ∧
       (∀ b1 b2, Pointed t ni b1 → Pointed t ni b2 → b1 ≠ b2 → R.kind = .ambiguous) := by
   have htr : (⟨s, 0, r⟩ : Tracker) ∈ trackers t :=
     mem_trackers (q := ⟨s, 0, r⟩) hf ⟨ni, (findImport_mem hi).1, (findImport_mem hi).2⟩ (Or.inl rfl)
@@ -113,15 +115,15 @@ theorem matchImport_spec {t : Table} {rs : List Resolved} (H : Hyps t rs) (k : B
     (by simp) (by simpa using length_trackers_lt t) (by intro q hq; cases hq)
   refine ⟨R, hR, ?_, ?_, ?_⟩
   · intro hnone
-    rcases hout with ⟨_, h⟩ | ⟨b0, _, hb0, _⟩
+    rcases hout with ⟨_, h⟩ | ⟨b0, _, _, hb0, _⟩
     · rw [h]; exact finish_all_eq _ [] (by simp)
     · exact absurd hb0 (hnone b0)
   · intro b hb hu
-    have := hout.unique hb hu
-    rw [this]
-    exact finish_all_eq _ [] (by simp)
+    obtain ⟨R0, hR0, hRR⟩ := hout.unique hb hu
+    rw [hRR, finish_all_eq _ [] (by simp)]
+    exact hR0
   · intro b1 b2 h1 h2 hne
-    rcases hout with ⟨hnone, _⟩ | ⟨b0, rs1, hb0, hrs, hcov, hReq⟩
+    rcases hout with ⟨hnone, _⟩ | ⟨b0, R0, rs1, hb0, hR0, hrs, hcov, hReq⟩
     · exact absurd h1 (hnone b1)
     · -- one of the two differs from b0
       have hpg : ∀ b, Pointed t ni b → GoodBinding t b := by
@@ -140,11 +142,12 @@ theorem matchImport_spec {t : Table} {rs : List Resolved} (H : Hyps t rs) (k : B
         · exact ⟨b2, h2, fun h' => hne (h.trans h'.symm)⟩
         · exact ⟨b1, h1, h⟩
       obtain ⟨b, hb, hbne⟩ := hdiff
-      rcases hcov b hb with h | h
+      rcases hcov b hb with h | ⟨r', hr', hrb⟩
       · exact absurd h hbne
       · rw [hReq]
         apply finish_kind_of_ne
-        refine ⟨normalOf t b, by simp [h], ?_⟩
+        refine ⟨r', by simp [hr'], ?_⟩
+        rw [hrb, hR0]
         intro heq
         exact hbne (normalOf_inj (hpg b hb) (hpg b0 hb0) heq)
 
